@@ -1,6 +1,6 @@
 // C19 driver: runs the same set of simulation jobs either one after another or concurrently in pthreads and prints one
 // hash per job.  Jobs create / integrate / copy / serialise / restore / free simulations of all integrator types.
-// usage: threads <seq|par> <nthreads> <njobs> <seed> <nsteps>
+// usage: threads <seq|par> <nthreads> <njobs> <seed> <nsteps> [modules]
 #include <stdio.h>
 #include <stdlib.h>
 #include <string.h>
@@ -75,8 +75,51 @@ static struct reb_simulation* make(int k){
     return r;
 }
 
+// Second job class ("modules"): clusters in a box with the gravity / collision / boundary modules, every job with its own G, softening,
+// opening angle, box size and collision settings - constants that a force or search routine might be tempted to keep in file-scope variables.
+static struct reb_simulation* make_module(int k){
+    uint64_t s = seed * 1000003ULL + (uint64_t)k * 104729ULL + 29ULL;
+    for (int i=0;i<5;i++) lcg(&s);
+    struct reb_simulation* r = reb_simulation_create();
+    r->rand_seed = 1000 + k;                 // the default seed is taken from the clock
+    r->integrator = REB_INTEGRATOR_LEAPFROG;
+    r->G = 0.5 + 0.25*(k%7);
+    r->softening = 0.01*(1 + k%5);
+    r->opening_angle2 = 0.1 + 0.3*(k%6);
+    const double L = 16. + 4.*(k%3);
+    const int grav = k%4;                     // 0,1: tree  2: basic  3: compensated
+    const int col = (k/4)%4;                  // 0: none  1: direct  2: tree  3: line
+    const int per = (k/2)%2;                  // periodic box with one ring of ghost boxes
+    const int tree = (grav<2) || col==2;
+    if (tree || per){
+        reb_simulation_configure_box(r, L, 1 + (k%2), 1, 1 + (k/8)%2);
+    }
+    if (per){
+        r->boundary = REB_BOUNDARY_PERIODIC;
+        r->N_ghost_x = 1; r->N_ghost_y = 1; r->N_ghost_z = 0;
+    }
+    r->gravity = grav<2 ? REB_GRAVITY_TREE : (grav==2 ? REB_GRAVITY_BASIC : REB_GRAVITY_COMPENSATED);
+    if (col==1) r->collision = REB_COLLISION_DIRECT;
+    if (col==2) r->collision = REB_COLLISION_TREE;
+    if (col==3) r->collision = REB_COLLISION_LINE;
+    if (col) r->collision_resolve = (k/16)%2 ? reb_collision_resolve_merge : reb_collision_resolve_hardsphere;
+    const int np = 40 + (int)(lcg(&s) % 40);
+    for (int i=0;i<np;i++){
+        struct reb_particle p = {0};
+        p.m = 1e-3*(0.2 + urand(&s));
+        p.r = col ? 0.08 + 0.2*urand(&s) : 0.;
+        p.x = (urand(&s)-0.5)*L*0.9; p.y = (urand(&s)-0.5)*L*0.9; p.z = (urand(&s)-0.5)*L*0.45;
+        p.vx = 0.3*(urand(&s)-0.5); p.vy = 0.3*(urand(&s)-0.5); p.vz = 0.1*(urand(&s)-0.5);
+        reb_simulation_add(r, p);
+    }
+    r->dt = 0.02 + 0.01*(k%3);
+    return r;
+}
+
+static int jobclass = 0;
+
 static uint64_t job(int k){
-    struct reb_simulation* r = make(k);
+    struct reb_simulation* r = jobclass ? make_module(k) : make(k);
     if ((k/10)%2){
         // observers between steps: synchronise-for-output and diagnostics must neither disturb this run nor any other thread's
         int done = 0;
@@ -130,6 +173,7 @@ int main(int argc, char** argv){
     njobs = atoi(argv[3]);
     seed = strtoull(argv[4], NULL, 10);
     nsteps = atoi(argv[5]);
+    jobclass = (argc > 6 && !strcmp(argv[6], "modules"));
     results = calloc(njobs, sizeof(uint64_t));
     if (!par){
         for (int k=0;k<njobs;k++) results[k] = job(k);
